@@ -7,23 +7,23 @@ BOUND = {
  "C01": "all programs <= 3 operators, all operand forms at the root / + all 4-operator programs in borrowed form; magnitude leaf table to 2 / 3 operators; 9 deep formulas (143 stages); 10 unary functions on 7 .. 257 names and at 10 awkward magnitudes; 12 unusual powers",
  "C02": "<= 2 operators all forms + 3 borrowed / <= 3 all forms + 4 borrowed; magnitude table, deep formulas and many-names pass as C01, at second order",
  "C03": "3 names (79 operands per side, both value pairs, 3 storage relations) + 4-name subset / 4 names, with negative-zero twins; layouts of 9 .. 257 names in 10 relations, one pair on 66 000 and one on 1 100 names, all operators, ==, remainder, sums, float operands; sequential pass over 65 x 65 layout pairs; non-standard memory layouts; bitwise layout differential on 5 derivative tables x 5 layouts; colliding name texts and self-comparison of numbers with NaN parts",
- "C04": "window 8 / 11, 3 anchors, every boundary position; 19 named calendars x all dates (piped ones also inside CalType); 127 x 5 masks (an eighth of them also with split working weeks); closure runs 12 .. 70, 365 .. 800 and 65 535 .. 65 600 days; dates with a time of day; three-member unions in every order; settlement closures of 100 100 / 146 500 days",
- "C05": "window 5 / 7 on 4 x 4 week-mask pairs, every i8; runs of 12, 35, 64, 367, 430, 65 600 closures; unions moved between threads; holiday supply in four forms (sorted, reversed, interleaved, doubled); every fifth mask case with split working weeks; named calendars, piped ones also inside CalType; ranges with times of day on both ends; years -1 .. 1",
+ "C04": "window 8 / 11, 3 anchors, every boundary position; 19 named calendars x all dates (piped ones also inside CalType); 127 x 5 masks (an eighth of them also with split working weeks); closure runs 12 .. 70, 365 .. 800 and 65 535 .. 65 600 days; dates with a time of day; three-member unions in every order; settlement closures of 100 100 / 146 500 days; one closure of 1 050 000 days",
+ "C05": "window 5 / 7 on 4 x 4 week-mask pairs, every i8; runs of 12, 35, 64, 367, 430, 65 600 closures; unions moved between threads; holiday supply in four forms (sorted, reversed, interleaved, doubled); every fifth mask case with split working weeks; named calendars, piped ones also inside CalType; ranges with times of day on both ends; years -1 .. 1; start instants inside a leap second",
  "C06": "unions of 1-3 members in every order; 1 806 x 3 name strings / + all 44 310 strings over 14 names; mask-versus-listed weekends; non-ASCII capitals; non-blocking settlement calendars; one-day differences in every year 1970-2200 / + every day of every 4th year",
- "C07": "complete in both tiers; plus one sequential name-resolution history (14 names x 3 passes with failing look-ups, 42 ordered pairs x 10 named calendars incl. piped names in three letter cases, another thread) and a supplementary concurrent first use",
+ "C07": "complete in both tiers; plus one sequential name-resolution history (14 names x 3 passes with failing look-ups, 42 ordered pairs x 10 named calendars incl. piped names in three letter cases and names of five and six calendars, another thread) and a supplementary concurrent first use",
  "C08": "every start date; offsets -40..40 / -130..130; all roll kinds; offsets to +-2 771; month pairs (a seventh of / all first months x all second months)",
  "C09": "all labelled trees n <= 5 (+ n = 6 with 2 orderings) / n <= 6; every shape <= 9 / 12; five shapes on 10 .. 13 currencies; rejection space on 4 / 4-5 currencies and on the broken large shapes; settlement instants half a second apart; clones",
- "C10": "36 / 52 markets to fixpoint with the settlement date as part of the state (rolled between 2 / 3 dates); sensitivities n <= 4 / 5 and a menu on 8 .. 13 currencies; large-market histories of length 2 / 3; clone independence in every transition; quotes whose variable carries another quote's automatic name",
+ "C10": "36 / 52 markets to fixpoint with the settlement date as part of the state (rolled between 2 / 3 dates); sensitivities n <= 4 / 5 and a menu on 8 .. 13 currencies; large-market histories of length 2 / 3; clone independence in every transition; quotes whose variable carries another quote's automatic name; every history of length 5 / 6 on the two smallest markets without merging states",
  "C11": "n <= 5 / 6 nodes, all supply permutations; index_left lists <= 9 / 11 and long lists <= 48 / 130; 7 .. 300 nodes on six grids, 1 023 .. 2 100 evenly spaced; look-ups 1 ms either side of every node",
- "C12": "3 600 / more initial curves to fixpoint; 9 .. 210 nodes on six grids through the switches 1, 2, 1, 0, 2; every ordered pair of 40 (curve id, node count) configurations; clone independence",
+ "C12": "3 600 / more initial curves to fixpoint; 9 .. 210 nodes on six grids through the switches 1, 2, 1, 0, 2; every ordered pair of 40 (curve id, node count) configurations; clone independence; nodes on shared variables in permuted order through every switch sequence of length 3 / 4",
  "C13": "all patterns <= 3x3, every 7th 4x4 / all 65 536; permutations 4..5 / 6, generator set <= 8, four permutations of 9 .. 33; two row-scale vectors; tiny entry at six magnitudes and four extreme scales; curved entries; graded systems 3 .. 12 in both row orders; square systems with least squares allowed; tall <= 12x6",
  "C14": "k <= 6 / 7 on the 5-position grid; 7 .. 64 interior knots for k <= 5; ten power-of-two scalings (2^-1060 .. 2^900), five translations with both signs of zero, far translation by 2^53; vector route in three point orders; doubles next to every knot; caught aborts first; knot vectors spanning 2^-40 .. 2^20 against a plain recursion",
- "C15": "k <= 4 / 6 exact-rational space (sites also with the interior reversed / rotated / swapped); every ordered pair of re-solve configurations with two kinds of refused solve in between; long splines up to 64 coefficients, also in abscissa units x 2^29 and x 2^-20",
+ "C15": "k <= 4 / 6 exact-rational space (sites also with the interior reversed / rotated / swapped); every ordered pair of re-solve configurations with two kinds of refused solve in between; long splines up to 64 coefficients, also in abscissa units x 2^29 and x 2^-20; ordered pairs of different splines on the same sites",
  "C16": "2^13 / 2^18 consecutive doubles x 10 anchors; structures; unions up to 14 members; objects of 5 .. 257 names / nodes / coefficients; epoch-straddling curves; every loaded object one step further; settlement instants with nanoseconds",
- "C17": "4 names, every requested list; sizes 3 .. 33 with the selection x order x padding request menu; four numbers with non-finite entries x every requested list; 70 000 names; results kept alive; names differing by case only; stationary variables with cross curvature",
+ "C17": "4 names, every requested list; sizes 3 .. 33 with the selection x order x padding request menu; four numbers with non-finite entries x every requested list; 70 000 names; results kept alive; names differing by case or by white space at their ends only; stationary variables with cross curvature",
  "C18": "3 / 6 values x 6 contents; every raising history of length <= 3; sums of three over 7 values x 27 kind triples; long mixed sums",
  "C19": "9 / 16 values x 4 contents; sums <= 4 / 5 over a pool of 8 and long sums 7 .. 130; sums over terms that share storage; quotients to 1e27, operands down to subnormal",
- "C20": "JSON single mutations for 17 documents, pairs for documents <= 26 / 44 nodes; constructors incl. 8 .. 100 names; k <= 4 / 5 for csolve, and the smallest splines (k <= 3, <= 3 basis functions); behaviour of every loaded calendar",
+ "C20": "JSON single mutations for 17 documents, pairs for documents <= 26 / 44 nodes; constructors incl. 8 .. 100 names; k <= 4 / 5 for csolve, and the smallest splines (k <= 3, <= 3 basis functions); behaviour of every loaded calendar; long names with a multi-byte character at every byte offset to 130",
 }
 
 def fmt(n):
